@@ -42,6 +42,7 @@ type Profile struct {
 	DupLabels  bool
 	NoStaleCtx bool // predicates/state blocks do not observe c.text / c.pos (avoid Q-STALE-CTX)
 	NoFFFDLit  bool // no literal contains U+FFFD (avoid Q-LIT-EOF)
+	UntilIdiom int  // percentage of sequences that are the "until" idiom (!"x" .)* !.
 	RuleLabels bool // label names are made distinct between rules (x0, x1, ..)
 	CharAlt    int  // percentage of choices built from single-character literals and small classes over a shared alphabet
 	ThrowIdiom int  // percentage of rules built as labelled-failure idioms (guarded items in sequence / nested)
@@ -259,6 +260,24 @@ func (g *gctx) genExpr(depth int) *Node {
 	case KAny:
 		return g.newNode(KAny)
 	case KSeq:
+		if g.pct(g.p.UntilIdiom) {
+			// (!"x" .)* followed by end of input: a literal matched inside a negative predicate and the end-of-input
+			// marker meet at one offset of the failure report
+			stop := g.newNode(KLit)
+			stop.Lit = asciiAlpha[g.r.Intn(4)]
+			not := g.newNode(KNot)
+			not.Kids = []*Node{stop}
+			body := g.newNode(KSeq)
+			body.Kids = []*Node{not, g.newNode(KAny)}
+			star := g.newNode(KStar)
+			star.Kids = []*Node{body}
+			star.Many = true
+			eof := g.newNode(KNot)
+			eof.Kids = []*Node{g.newNode(KAny)}
+			n := g.newNode(KSeq)
+			n.Kids = []*Node{star, eof}
+			return n
+		}
 		n := g.newNode(KSeq)
 		cnt := 2 + g.r.Intn(3)
 		if g.pct(3) {
@@ -297,6 +316,10 @@ func (g *gctx) genExpr(depth int) *Node {
 				if g.pct(40) {
 					l := g.newNode(KLit)
 					l.Lit = alpha[g.r.Intn(len(alpha))]
+					if g.pct(30) {
+						// a longer literal next to one-character ones ("=" / "<-"): must not be merged into a class
+						l.Lit += alpha[g.r.Intn(len(alpha))]
+					}
 					n.Kids = append(n.Kids, l)
 					continue
 				}
